@@ -35,7 +35,8 @@ func MakeBitMasks(instruction []byte, bitmaskData []byte) (Bitmask, ExitReason) 
 
 			// (GP A.5) a basic block starts at 0 or right after a terminator n, i.e. at
 			// n+1+skip(n), and skip(n) is at most 24
-			if i == 0 || (IsBlockTerminator(instruction[prev]) && i-prev <= 25) {
+			// and it must hold a valid opcode
+			if (i == 0 || (IsBlockTerminator(instruction[prev]) && i-prev <= 25)) && IsValidOpcode(instruction[i]) {
 				bitmask[i] |= 0x02
 			}
 
